@@ -270,11 +270,11 @@ Definition build (b : mbuilder) : res MediaPlaylist :=
   else Err.
 
 (* ---------- parse_media_playlist ---------- *)
-Definition parse_media_with (b0 : mbuilder) (input : str) : res MediaPlaylist :=
-  let! rest := tag input pfx_ExtM3u in
-  let! s := run_lines {| ps_seg := seg_empty; ps_partial := false; ps_hasdisc := false;
-                         ps_unknown := []; ps_keys := []; ps_segs := []; ps_b := b0 |}
-                      (lines_of rest) in
+Definition init_state (b0 : mbuilder) : pstate :=
+  {| ps_seg := seg_empty; ps_partial := false; ps_hasdisc := false; ps_unknown := []; ps_keys := [];
+     ps_segs := []; ps_b := b0 |}.
+(* after the last line: a pending segment is an error; otherwise build *)
+Definition finish_media (s : pstate) : res MediaPlaylist :=
   if ps_partial s then Err
   else
     let b := ps_b s in
@@ -282,6 +282,10 @@ Definition parse_media_with (b0 : mbuilder) (input : str) : res MediaPlaylist :=
              b_iframes := b_iframes b; b_indep := b_indep b; b_start := b_start b;
              b_endlist := b_endlist b; b_segments := Some (map Some (rev (ps_segs s)));
              b_excess := b_excess b; b_unknown := Some (rev (ps_unknown s)) |}.
+Definition parse_items (b0 : mbuilder) (ls : list (res line)) : res MediaPlaylist :=
+  let! s := run_lines (init_state b0) ls in finish_media s.
+Definition parse_media_with (b0 : mbuilder) (input : str) : res MediaPlaylist :=
+  let! rest := tag input pfx_ExtM3u in parse_items b0 (lines_of rest).
 Definition parse_media (input : str) : res MediaPlaylist := parse_media_with mb_default input.
 Definition with_excess (ns : N) : mbuilder :=
   {| b_target := None; b_mseq := None; b_dseq := None; b_ptype := None; b_iframes := None;
